@@ -289,6 +289,19 @@ class Sym:
 
     __hash__ = None
 
+    def is_integer(self):
+        """float.is_integer() of a symbolic value: a decision.  On the True branch the value equals a fresh integer ghost (exact);
+        on the False branch nothing is added (an over-approximation: the branch is explored for every value)."""
+        if self.is_const():
+            return Fraction(self.const_value()).denominator == 1
+        st = _need_state()
+        key = ("is_integer", self.key())
+        n = st.memo.get(key)
+        if n is None:
+            n = Sym(Poly.var(st.fresh("n", "int")))
+            st.memo[key] = n
+        return bool(SymBool(("eq", self - n)))
+
     # ---- conversions
     def __float__(self):
         if self.is_const():
